@@ -473,6 +473,18 @@ func (sr *sessRun) feed(p peerStanza) {
 	k := sr.nread
 	sr.nread++
 	sr.fed = append(sr.fed, p)
+	outBefore := sr.rs.Out.Len()
+	autoReply := p.kind == 'i' && p.typ != 'r' && p.typ != 'e' // the serve loop answers an unhandled get/set itself
+	defer func() {
+		if !autoReply {
+			return
+		}
+		// wait for that reply to be on the wire: it needs the output lock, which the next
+		// requester would hold while it is parked in its transmission
+		for dl := time.Now().Add(watchdog); sr.rs.Out.Len() == outBefore && time.Now().Before(dl); {
+			time.Sleep(20 * time.Microsecond)
+		}
+	}()
 	go sr.rs.Feed([]byte(p.xml()))
 	want := sr.lookupShadow(p)
 	if p.typ == 'r' || p.typ == 'e' {
